@@ -15,7 +15,7 @@ SPEC = {
                    "PdModel/Spec/C04.lean", "PdModel/Driver/IdAlloc.lean"],
     "gen": {
         "quick": {"args": ["-n", "75", "-len", "60"], "streams": 4},
-        "thorough": {"args": ["-n", "500", "-len", "90"], "streams": 16},
+        "thorough": {"args": ["-n", "380", "-len", "90"], "streams": 16},
     },
     "search": {"args": ["-n", "400", "-len", "80"], "streams": 8},
     "nontrivial": nontrivial,
